@@ -321,6 +321,9 @@ func isEntriesLookupOf(v ssa.Value, key ssa.Value) *ssa.Lookup {
 }
 
 func recvNamed(fn *ssa.Function) string {
+	if fn == nil || fn.Signature.Recv() == nil {
+		return ""
+	}
 	rt := fn.Signature.Recv().Type()
 	if pt, ok := rt.(*types.Pointer); ok {
 		rt = pt.Elem()
